@@ -37,6 +37,10 @@ type Prop struct {
 	Cases func(tier string, seed uint64) []CaseID
 	// RunCase executes one case; it must call ctx.Fail for every violation.
 	RunCase func(ctx *Ctx, id CaseID)
+	// Post inspects the merged observation counters after all workers finished and
+	// returns reasons why the run must be reported inconclusive (e.g. an exported
+	// API that was never exercised).
+	Post func(counters map[string]int64) []string
 	// Custom replaces the sharded case runner entirely (used by C18).
 	Custom func(tier string, seed uint64) int
 }
